@@ -2211,8 +2211,11 @@ def _config_str(
     for (scope, selector), config in configuration_object.items():
       if _REGISTRY[selector].wrapped == macro:  # pylint: disable=comparison-with-callable
         # Macros without a (literally representable) value can't be written
-        # out in a parseable form, so they are omitted.
-        if 'value' in config and _is_literally_representable(config['value']):
+        # out in a parseable form, so they are omitted. The same goes for a
+        # macro with a dotted name: `pkg.name = value` would read back as an
+        # ordinary binding of parameter `name`.
+        if ('value' in config and '.' not in scope and
+            _is_literally_representable(config['value'])):
           macros[scope, selector] = config
     if macros:
       formatted_statements.append('# Macros:')
